@@ -84,6 +84,9 @@ class Spec:
             acts.append("end:%d" % sid)
             for inc in ("1", "max", "over"):
                 acts.append("wu:%d:%s" % (sid, inc))
+        for sid in sorted(st.done):
+            if sid in st.Ws:
+                acts.append("senddead:%d" % sid)     # a send the stream refuses although the windows would allow it
         if not self.client and st.npush < 1:
             for sid in self._sids(st):
                 if sid % 2:
@@ -124,6 +127,16 @@ class Spec:
                 return Step("open-failed", viols, prune=True)
             st.Ws[sid] = st.iws
             out = "open"
+        elif parts[0] == "senddead":
+            sid = int(parts[1])
+            o = h.api("send_data", sid, b"dd")
+            if o.kind == "ok":
+                bad("send-on-ended-stream-accepted", "send_data on stream %d, which this endpoint has ended or reset -> %s" % (sid, o.brief()))
+                st.dead = True
+                return Step("senddead-accepted", viols, prune=True)
+            if o.raw:
+                bad("refused-send-emitted", "refused send_data emitted %d bytes" % len(o.raw))
+            out = "senddead-refused"       # no window may have moved: the accessor invariant below decides
         elif parts[0] == "push":
             parent = int(parts[1])
             st.npush += 1
